@@ -275,6 +275,25 @@ fn stdout_case(backend: Backend, paths: &[PathBuf], exp: &Result<(String, Vec<St
             if o.stdout != text.as_bytes() {
                 return Some(("stdout-content", format!("stdout holds {} bytes, compile_to_string() returned {} bytes", o.stdout.len(), text.len())));
             }
+            // a standard output that takes no bytes (/dev/full): nothing is delivered, so
+            // compile() must say so, whatever the size of the text
+            if !text.is_empty() {
+                if let Ok(full) = std::fs::OpenOptions::new().write(true).open("/dev/full") {
+                    let exe = std::env::current_exe().ok()?;
+                    let mut cmd = Command::new(exe);
+                    cmd.arg("c20-child").arg(if backend == Backend::Ts { "ts" } else { "rasn" });
+                    for p in paths {
+                        cmd.arg(p);
+                    }
+                    cmd.stdout(std::process::Stdio::from(full));
+                    let o2 = cmd.output().ok()?;
+                    match o2.status.code() {
+                        Some(0) => return Some(("stdout-unwritable", format!("compile() returned Ok although standard output accepts no bytes ({} bytes of text were to be written)", text.len()))),
+                        Some(101) => return Some(("panic", "compile() to an unwritable stdout panicked".into())),
+                        _ => {}
+                    }
+                }
+            }
             None
         }
         Err(_) => {
@@ -846,6 +865,18 @@ pub fn run(tier: Tier, seed: u64, replay: Option<String>) -> i32 {
             }
         }
     } else {
+        // replay tier: the committed inputs run like generated ones
+        for (_p, v) in crate::ev::replay_files("C20") {
+            if v["kind"] == "c20" {
+                let texts: Vec<(String, String)> = v["sources"]
+                    .as_array()
+                    .map(|a| a.iter().map(|s| (s["name"].as_str().unwrap_or("m").trim_end_matches(".asn").to_string(), s["text"].as_str().unwrap_or("").to_string())).collect())
+                    .unwrap_or_default();
+                if !texts.is_empty() {
+                    inputs.push(Input { texts, malformed: true, stream: None });
+                }
+            }
+        }
         let n_inputs = tier.pick(40, 600);
         let mut drv = Driver::new(seed, 20, 2500);
         let streams: Vec<Vec<u32>> = drv.draw(n_inputs).iter().map(|t| t.current()).collect();
